@@ -295,17 +295,21 @@ def run_with_agent(name, triggers, journal=None, push_fail_at=None, push_exc=Non
     threading.Thread.run = run_and_mark
     hook = threading.excepthook
     threading.excepthook = lambda a: None   # a thread dying of an agent exception shows up in the differential, not on stderr
+    limit_before = sys.getrecursionlimit()
     try:
         with rig.VirtualClock(), NoCollector():
             run = run_installed(handler, lo.ns['main'])
             frames = live_frames(lo.path)
     finally:
+        limit_after = sys.getrecursionlimit()
+        sys.setrecursionlimit(limit_before)      # (a program cut short by an agent failure must not cripple the rest of this worker)
         threading.Thread.run = real_run
         threading.excepthook = hook
         if hasattr(TR, 'inspect'):
             TR.inspect = saved_inspect
     after = getattr(run.trace_after, '__self__', None) is handler
     obs = observe(lo, run, None)
+    obs['process']['recursionlimit'] = limit_after
     obs['trace_after'] = after
     obs['frames'] = frames
     obs['thread_marks'] = marks
